@@ -211,6 +211,64 @@ class BlockStream(Stream):
                 "print([s._obj(d).solve(**{d['param']: v}).S for v in d['vals']])\n")
 
 
+class DerivedStream(Stream):
+    """a solver parameter defined through add_param by a function whose result TYPE depends on the value (real for some
+    sweep points, complex for others): sweep index k is still the scalar solve of the k-th value"""
+    name = "derived"
+    imports = "Field Matrix Base Kernel Network Solve Params Sweep Corr"
+    case_type = "blk_case"
+    verdict_fn = "blk_verdict"
+    shard_size = 12
+
+    def generate(self, rng, tier):
+        out = []
+        for _ in range(12 if tier == "quick" else 120):
+            n = rng.randint(3, 5)
+            xs = [rng.choice([0.25, 1.0, 2.25, 0.5625]) for _ in range(n)]
+            for k in rng.sample(range(1, n), rng.randint(1, n - 1)):
+                xs[k] = -xs[k]                     # the first point is real, later ones have an imaginary root
+            out.append({"xs": xs, "nested": rng.random() < 0.4, "fn": rng.choice(["sqrt", "sqrt_half"])})
+        return out
+
+    @staticmethod
+    def _solver(d):
+        f = (lambda x=1.0: np.emath.sqrt(x)) if d["fn"] == "sqrt" else (lambda x=1.0: 0.5 * np.emath.sqrt(x) + 0.25)
+        with lk.Solver() as S:
+            ps = lk.PhaseShifter().put()
+            wg = lk.Waveguide(2.0, 1.5).put("a0", ps.pin["b0"])
+            lk.Pin("in").put(ps.pin["a0"])
+            lk.Pin("out").put(wg.pin["b0"])
+            lk.add_param("PS", f, default={"x": 1.0})
+        if not d["nested"]:
+            return S
+        with lk.Solver() as T:
+            st = S.put()
+            lk.raise_pins()
+        return T
+
+    def run(self, d):
+        def mat(mod, k):
+            return cmat(netlib.observe_expo(mod, ["in", "out"], k), cf)
+        scal = []
+        for x in d["xs"]:
+            try:
+                scal.append("Obs " + mat(self._solver(d).solve(x=x, wl=1.25), 0))
+            except Exception:
+                scal.append("Raised")
+        try:
+            mod = self._solver(d).solve(x=np.array(d["xs"]), wl=1.25)
+            sw = "Obs " + clist(mat(mod, k) for k in range(len(d["xs"])))
+        except Exception:
+            sw = "Raised"
+        return "{| bk_scalar := %s; bk_sweep := %s |}" % (clist(scal), sw)
+
+    def nontrivial(self, d):
+        return True
+
+    def classify(self, d):
+        return d["fn"] + ("/nested" if d["nested"] else "")
+
+
 class Block2Stream(Stream):
     """every bare library block with SEVERAL parameters assigned at once: scalar / length-1 / length-n values (and a
     second, different length > 1, which must be rejected); the model does the broadcast, the scalar solves of /repo are
@@ -370,7 +428,7 @@ TRUSTED = [
 if __name__ == "__main__":
     import translate_sweep
     from common import source_obligation
-    main("C04", [SweepStream(), BlockStream(), Block2Stream(), NetSweepStream()],
+    main("C04", [SweepStream(), BlockStream(), DerivedStream(), Block2Stream(), NetSweepStream()],
          source_obligations=[source_obligation(
              "SweepSrc_C04", translate_sweep.translate, "SweepSrcProof.v",
              ["solver_normalise_src_is_normalise", "model_sweep_src_is_sweep_solve"])],
